@@ -189,7 +189,7 @@ Definition from_bbox (B : bbox) (crs : Z) (tight : bool) (shape : option shape_r
 Definition footprint_buffer (buffer : Q) (rs : Q * Q) : Q :=
   buffer * qmax (Qabs (fst rs)) (Qabs (snd rs)).
 
-(** the expression before repair 99d08e4: max of the signed components *)
+(** the expression before repair b8c684a: max of the signed components *)
 Definition footprint_buffer_unrepaired (buffer : Q) (rs : Q * Q) : Q :=
   buffer * qmax (fst rs) (snd rs).
 
